@@ -133,7 +133,7 @@ def selftest(prop: str, repo: str, base: set[str], read_set: set[str] | None = N
         rfdir = os.path.join(VERIF, "selftest", "refactors")
         # the thorough tier replays the two newest rounds of refactoring sets (tools/silent_check.py
         # replays all of them); VERIF_REFACTOR_ROUNDS=all or a comma list changes that
-        rounds = os.environ.get("VERIF_REFACTOR_ROUNDS", "RI,RJ")
+        rounds = os.environ.get("VERIF_REFACTOR_ROUNDS", "RJ,RK")
         names = [f for f in sorted(os.listdir(rfdir)) if f.endswith(".diff") and (rounds == "all" or f.split("_")[0] in rounds.split(","))] if os.path.isdir(rfdir) else []
         rfs = [ex.submit(_refactor, prop, repo, f[:-5], os.path.join(rfdir, f), base, read_set) for f in names]
         out["must_fire"] = [f.result() for f in futs]
